@@ -691,6 +691,23 @@ impl BytecodeVM {
     /// or `VmStepResult::Terminal(result)` if execution reached a terminal state.
     ///
     /// This method enables step-by-step execution for host-controlled interruption.
+    /// Abstract relational comparison: operands are converted to primitives first; two strings
+    /// compare by UTF-16 code units, everything else numerically (None = unordered, i.e. NaN).
+    fn relational_compare(
+        interp: &mut Interpreter,
+        left: &JsValue,
+        right: &JsValue,
+    ) -> Result<Option<core::cmp::Ordering>, JsError> {
+        let left_prim = interp.coerce_to_primitive(left, "number")?;
+        let right_prim = interp.coerce_to_primitive(right, "number")?;
+        if let (JsValue::String(a), JsValue::String(b)) = (&left_prim, &right_prim) {
+            return Ok(Some(
+                a.as_str().encode_utf16().cmp(b.as_str().encode_utf16()),
+            ));
+        }
+        Ok(left_prim.to_number().partial_cmp(&right_prim.to_number()))
+    }
+
     #[inline]
     pub fn step(&mut self, interp: &mut Interpreter) -> VmStepResult {
         #[cfg(feature = "verif-hooks")]
@@ -2175,30 +2192,26 @@ impl BytecodeVM {
             }
 
             Op::Lt { dst, left, right } => {
-                let left_val = self.get_reg(left).to_number();
-                let right_val = self.get_reg(right).to_number();
-                self.set_reg(dst, JsValue::Boolean(left_val < right_val));
+                let ord = Self::relational_compare(interp, self.get_reg(left), self.get_reg(right))?;
+                self.set_reg(dst, JsValue::Boolean(matches!(ord, Some(core::cmp::Ordering::Less))));
                 Ok(OpResult::Continue)
             }
 
             Op::LtEq { dst, left, right } => {
-                let left_val = self.get_reg(left).to_number();
-                let right_val = self.get_reg(right).to_number();
-                self.set_reg(dst, JsValue::Boolean(left_val <= right_val));
+                let ord = Self::relational_compare(interp, self.get_reg(left), self.get_reg(right))?;
+                self.set_reg(dst, JsValue::Boolean(matches!(ord, Some(core::cmp::Ordering::Less | core::cmp::Ordering::Equal))));
                 Ok(OpResult::Continue)
             }
 
             Op::Gt { dst, left, right } => {
-                let left_val = self.get_reg(left).to_number();
-                let right_val = self.get_reg(right).to_number();
-                self.set_reg(dst, JsValue::Boolean(left_val > right_val));
+                let ord = Self::relational_compare(interp, self.get_reg(left), self.get_reg(right))?;
+                self.set_reg(dst, JsValue::Boolean(matches!(ord, Some(core::cmp::Ordering::Greater))));
                 Ok(OpResult::Continue)
             }
 
             Op::GtEq { dst, left, right } => {
-                let left_val = self.get_reg(left).to_number();
-                let right_val = self.get_reg(right).to_number();
-                self.set_reg(dst, JsValue::Boolean(left_val >= right_val));
+                let ord = Self::relational_compare(interp, self.get_reg(left), self.get_reg(right))?;
+                self.set_reg(dst, JsValue::Boolean(matches!(ord, Some(core::cmp::Ordering::Greater | core::cmp::Ordering::Equal))));
                 Ok(OpResult::Continue)
             }
 
